@@ -19,6 +19,7 @@ EXPLANATION = (
     "original's; then both objects are given the same symbolic random draws and take_step / advance(1) is executed on "
     "both: the appended sample, log-probability and post-state are equal; an exception on the loaded side that the "
     "original does not raise is a counterexample (missing attributes after load)."
+    ' The HMC step-size tuner is saved mid-assessment (arbitrary running sums, an earlier adjustment on record) and every item of its reported state must come back with the saved value.'
 )
 BOUNDS = {"quick": "dimension <=2, history <=2 stored points, one continuation step (<=1 retry per coordinate); with constructor bounds the continuation is not re-run (the fold is deterministic and checked by C04): read-outs, bounds and the selected proposal/trajectory mode are compared", "thorough": "adds 2 retries and non-default mass variants"}
 ASSUMPTIONS = [
@@ -222,12 +223,26 @@ def hmc_save_load_continue(h, d, mass, bounded):
     h.covers(hmc.HamiltonianChain.save, hmc.HamiltonianChain.load, epm.EpsilonSelector.get_items, epm.EpsilonSelector.load_items)
     a.run_leapfrog = a.bounded_leapfrog if bounded else a.standard_leapfrog
     h.patch(epm, float=stubs.sym_float, int=stubs.sym_int)
+    # the step-size tuner is saved in the middle of an assessment window: arbitrary running sums, an earlier adjustment on record
+    a.ES.avg = h.real("es_avg", lo=0, hi=2)
+    a.ES.var = h.real("es_var", lo=0, hi=2)
+    a.ES.num = 2
+    a.ES.epsilon_values = list(a.ES.epsilon_values) + [h.real("es_eps1", pos=True)]
+    a.ES.epsilon_checks = list(a.ES.epsilon_checks) + [7.0]
     fn, tmp = _store(h, hmc)
     try:
         a.save(fn)
         b = hmc.HamiltonianChain.load(fn, posterior=post, grad=grad)
         b.steps = a.steps
         _cmp_common(h, a, b, d, "loaded: ")
+        items_a, items_b = dict(a.ES.get_items()), dict(b.ES.get_items())
+        h.same("loaded: the tuner reports the same set of state items", sorted(items_a), sorted(items_b))
+        for key in sorted(items_a):
+            if key in items_b:
+                va, vb = np.asarray(items_a[key]), np.asarray(items_b[key])
+                h.same(f"loaded: tuner item '{key}' has the same shape", va.shape, vb.shape)
+                if va.shape == vb.shape:
+                    h.eq(f"loaded: tuner item '{key}' has the saved value", vb, va)
         h.eq("loaded: temperature", b.inv_temp, a.inv_temp)
         h.eq("loaded: step size", b.ES.epsilon, a.ES.epsilon)
         if bounded:
